@@ -28,6 +28,18 @@ def build_native(repo):
         open(p, 'w').write(t)
     if not os.path.exists(os.path.join(d, 'Cargo.lock')):
         shutil.copy(os.path.join(repo, 'Cargo.lock'), os.path.join(d, 'Cargo.lock'))
+    # the SDK's fixed-point <-> Decimal conversions (crates/sdk/src/utils/fixed.rs) are spliced in as TEXT: everything above the
+    # test module, verbatim, with the two crate-local names they use bound by a shim (MARKET_DECIMALS read from /repo, crate::Error)
+    gen = os.path.join(d, 'gen')
+    os.makedirs(gen, exist_ok=True)
+    try:
+        src = open(os.path.join(repo, 'crates/sdk/src/utils/fixed.rs')).read().split('#[cfg(test)]')[0]
+        src = src.replace('use crate::constants::MARKET_DECIMALS;', 'use super::sdk_shim::MARKET_DECIMALS;').replace('crate::Result<', 'super::sdk_shim::Result<').replace('crate::Error::custom', 'super::sdk_shim::Error::custom')
+    except OSError:
+        src = ''
+    gp = os.path.join(gen, 'sdk_fixed.rs')
+    if not os.path.exists(gp) or open(gp).read() != src:
+        open(gp, 'w').write(src)
     env = dict(os.environ, CARGO_NET_OFFLINE='true', CARGO_TARGET_DIR=os.path.join(BUILD, 'replay-target'))
     r = subprocess.run(['cargo', 'build', '--release', '--offline', '-q'], cwd=d, env=env, capture_output=True, text=True, timeout=1800)
     if r.returncode != 0:
